@@ -590,6 +590,13 @@ theorem cg_exact_in_n_steps (S : Sys V K) (hS : S.SPDP) [FiniteDimensional K V] 
     (cg S c nreset fuel E).reason ≠ .fuel ∧ (cg S c nreset fuel E).iters.length ≤ Module.finrank K V :=
   cg_exact S hS c nreset fuel hfuel E hE
 
+/-- With a compatible complex structure `J` (`J² = −1`, isometry of `ip`, commuting with `A` and the preconditioner —
+    multiplication by `i` for a complex Hermitian system) CG makes at most `dim_K V / 2` passes through its loop. -/
+theorem cg_exact_hermitian (S : Sys V K) (J : V → V) (hS : S.Hermitian J) [FiniteDimensional K V] (c : Ctrl K τ)
+    (nreset : Int) (fuel : Nat) (hfuel : Module.finrank K V ≤ 2 * fuel) (E : QE V K) (hE : E.Consistent S) :
+    (cg S c nreset fuel E).reason ≠ .fuel ∧ 2 * (cg S c nreset fuel E).iters.length ≤ Module.finrank K V :=
+  cg_exact_J S J hS c nreset fuel hfuel E hE
+
 /-- ... and if the controller never stops it (never raises), the position returned after those at most `n` iterations is
     the exact solution `A x = b`, reported as CONVERGED. -/
 theorem cg_exact_solution (S : Sys V K) (hS : S.SPDP) [FiniteDimensional K V] (c : Ctrl K τ) (nreset : Int)
@@ -833,17 +840,19 @@ theorem complex_hermitian_covered {n : Type} [Fintype n] (M : Matrix n n ℂ) (b
   by_contra h0
   exact absurd hv (ne_of_gt (h.P_pos v h0))
 
-/-- Exact termination for complex Hermitian positive definite `n × n` systems (with optional Hermitian positive definite
-    preconditioner): CG makes at most `2n` passes through its loop (`2n` = real dimension of `ℂⁿ`; the classical sharper
-    bound `n` is **not** proved — it needs the complex-linear structure that the real-scalar model does not see). -/
+/-- **Exact termination for complex Hermitian positive definite `n × n` systems** (optional Hermitian positive definite
+    preconditioner): CG makes at most `n` passes through its loop — the classical bound, although the model only sees the
+    real structure (`2n` real dimensions): multiplication by `i` is a compatible complex structure
+    (`complexSys_hermitian`), the span of the directions is closed under it and grows by two real dimensions per
+    iteration (`cg_exact_hermitian`). -/
 theorem cg_exact_complex {τ : Type} {n : ℕ} (M : Matrix (Fin n) (Fin n) ℂ) (b : Option (Fin n → ℂ))
     (N : Option (Matrix (Fin n) (Fin n) ℂ)) (ninfsq : (Fin n → ℂ) → ℝ) (hM : M.conjTranspose = M)
     (hMpos : ∀ x : Fin n → ℂ, x ≠ 0 → 0 < (star x ⬝ᵥ M.mulVec x).re)
     (hN : ∀ N', N = some N' → N'.conjTranspose = N' ∧ ∀ x : Fin n → ℂ, x ≠ 0 → 0 < (star x ⬝ᵥ N'.mulVec x).re)
-    (c : Ctrl ℝ τ) (nreset : Int) (fuel : Nat) (hfuel : 2 * n ≤ fuel) (x0 : Fin n → ℂ) :
+    (c : Ctrl ℝ τ) (nreset : Int) (fuel : Nat) (hfuel : n ≤ fuel) (x0 : Fin n → ℂ) :
     (cg (complexSys M b N ninfsq) c nreset fuel (QE.at (complexSys M b N ninfsq) x0)).reason ≠ .fuel ∧
-    (cg (complexSys M b N ninfsq) c nreset fuel (QE.at (complexSys M b N ninfsq) x0)).iters.length ≤ 2 * n :=
-  cg_exact_complexSys M b N ninfsq hM hMpos hN c nreset fuel hfuel x0
+    (cg (complexSys M b N ninfsq) c nreset fuel (QE.at (complexSys M b N ninfsq) x0)).iters.length ≤ n :=
+  cg_exact_complexSys_sharp M b N ninfsq hM hMpos hN c nreset fuel hfuel x0
 
 /-- non-vacuity: `M = 2·1` on `ℂ²`, no preconditioner -/
 example : (complexSys ((2 : ℂ) • (1 : Matrix (Fin 2) (Fin 2) ℂ)) none none (fun _ => 0)).SPDP := by
